@@ -27,4 +27,13 @@ let () = iter_lines (fun line ->
            (if e.en_chunked then 1 else 0)
            (if e.en_headers = [] then "-" else
             String.concat "," (List.map (fun (k, v) -> hex_of_nlist k ^ ":" ^ hex_of_nlist v) e.en_headers)))
+  | ["ldc"; wire; mx; ops] ->
+      let lop_of t = match String.split_on_char ':' t with
+        | ["r"; n] -> LRead (n_of_int (int_of_string n)) | ["a"] -> LReadAll | _ -> failwith "bad op" in
+      let (l, e) = lim_run (lim_init (n_of_int (int_of_string mx))) (dst_init (hx wire))
+                     (List.map lop_of (String.split_on_char ';' ops)) in
+      String.concat "|" (List.map hex_of_nlist l
+        @ (match e with
+           | Some ClientDisconnected -> ["!CD"] | Some RequestEntityTooLarge -> ["!413"]
+           | Some OutOfFuel -> ["!FUEL"] | Some _ -> ["!OTHER"] | None -> []))
   | _ -> "bad-command")
